@@ -53,7 +53,7 @@ ROUTE = {
     "sub82": "ipoe",
     "sesspap": "sess", "sesschap": "sess", "fzsess": "sess", "fzseq": "sess", "bkdhcp6": "sess", "bkrakick": "sess", "bkevd6": "sess", "bkevra": "sess", "bkevl2": "ipoe",
     "bkl2gw": "ipoe",
-    "attr80": "radius", "fzrad": "radius", "radreply": "radius", "radreqauth": "radius", "radma": "radius", "coaattrs": "radius", "radex": "radius",
+    "attr80": "radius", "fzrad": "radius", "radreply": "radius", "radreqauth": "radius", "radma": "radius", "coaattrs": "radius", "radex": "radius", "radparse": "radius",
     "ipoeopts": "ipoe", "l2ppp": "il2tp", "fzipoe": "ipoe",
     "fzgopkt": "shm",
 }
@@ -804,6 +804,9 @@ def gen_cases(rng, tier, budget):
     def rad_emit(b):
         add(case("attr80", [], b))
         add(case("fzrad", [], b))
+        add(case("radparse", [], b))
+        if rng.random() < 0.5:
+            add(case("radparse", [], rad_sign_coa(b)))
         ra = rb(rng, 16)
         r = rad_sign_reply(b, ra, rng) if rng.random() < 0.6 else b
         if rng.random() < 0.3:
@@ -815,18 +818,55 @@ def gen_cases(rng, tier, budget):
         add(case("radreqauth", [], c, dq))
         add(case("radma", [], c, dm))
     family(rng, tier, gen_radius, nv, 2 * nm, rad_emit)
-    # exchange histories: hostile datagrams from the server's address BEFORE (and after) the genuine reply
-    for k in (0, 1, 2, 3, 4, 5, 6):
-        add(case("radex", [], bytes([k, 9])))
-        add(case("radex", [], bytes([9, k])))
-    add(case("radex", [], bytes([9])))
-    add(case("radex", [], bytes([0, 1, 2, 3, 4, 5, 6, 9, 0])))
-    add(case("radex", [], bytes([6, 6, 9])))
-    add(case("radex", [], bytes([0, 2])))          # no genuine reply at all: the exchange times out
-    for _ in range(10 if q else 200):
-        h = [rng.choice([0, 0, 1, 2, 3, 4, 5, 6]) for _ in range(rng.randint(1, 6))]
-        h.insert(rng.randint(0, len(h)), 9)
-        add(case("radex", [], bytes(h)))
+    # exchange histories: hostile datagrams from the server's address BEFORE (and after) the genuine reply; every history
+    # ends with an authentic sentinel reply so that the exchange never has to time out on a correct implementation
+    def rad_reply(ident, reqauth, msg, secret=SECRET, code=2):
+        attrs = bytes([18, 2 + len(msg)]) + msg
+        head = bytes([code, ident]) + be16(20 + len(attrs))
+        return head + hashlib.md5(head + reqauth + attrs + secret).digest() + attrs
+    def radex_case(kinds):
+        ra = rb(rng, 16)
+        ds = []
+        for k in kinds:
+            if k == 0:
+                ds.append(bytes([3, 1, 0, 20]) + bytes(16))
+            elif k == 1:
+                ds.append(bytes([3, 2, 0, 20]) + bytes(16))
+            elif k == 2:
+                ds.append(rng.choice([b"\xff\x01\x00\x02\x01", rb(rng, 7), bytes([2, 1, 0, 19]) + bytes(16), bytes([2, 1, 0, 30]) + bytes(16)]))
+            elif k == 3:
+                ds.append(rad_reply(1, ra, b"evil", secret=b"other"))
+            elif k == 4:
+                ds.append(rad_reply(1, rb(rng, 16), b"stale"))
+            elif k == 5:
+                ds.append(rad_reply(1, ra, b"welcome")[:-3])
+            elif k == 6:
+                ds += [bytes([3, i, 0, 20]) + bytes(16) for i in range(0, 64)]
+            elif k == 7:
+                g = bytearray(rad_reply(1, ra, b"flip"))
+                g[rng.randrange(len(g))] ^= 1 << rng.randrange(8)
+                ds.append(bytes(g))
+            elif k == 9:
+                ds.append(rad_reply(1, ra, b"welcome"))
+        ds.append(rad_reply(1, ra, b"sentinel"))
+        args = [ra]
+        for d in ds:
+            d1, d2 = rad_reply_oracles(d, ra)
+            args += [d, d1, d2]
+        add(case("radex", [], *args))
+    for k in (0, 1, 2, 3, 4, 5, 6, 7):
+        radex_case([k, 9])
+        radex_case([9, k])
+        radex_case([k])
+    radex_case([9])
+    radex_case([])
+    radex_case([0, 1, 2, 3, 4, 5, 6, 7, 9, 0])
+    radex_case([6, 6, 9])
+    for _ in range(10 if q else 300):
+        h = [rng.choice([0, 0, 1, 2, 3, 4, 5, 6, 7]) for _ in range(rng.randint(1, 6))]
+        if rng.random() < 0.7:
+            h.insert(rng.randint(0, len(h)), 9)
+        radex_case(h)
     for n in range(0, 24):
         rad_emit(bytes(n))
         rad_emit(b"\x02\x01" + be16(n) + bytes(20))
@@ -956,9 +996,11 @@ def nontrivial(case_line, impl):
 def classify(case_line, impl, model):
     e = case_line.split(" ", 1)[0]
     if e == "radex" and impl != model:
+        if impl.startswith("skipped"):
+            return "G", "radex: not run, the harness stopped after three exchanges that got no reply"
         return "P", ("radex: with this history of datagrams from the server's address the RADIUS exchange %s "
-                     "(a hostile datagram must be ignored: the genuine reply has to reach the requester)" %
-                     ("timed out although the genuine reply was sent" if impl == "ok 0" else "returned %r, expected %r" % (impl, model)))
+                     "(a hostile datagram must be ignored: the first authentic reply has to reach the requester)" %
+                     ("got no reply at all although authentic replies were sent" if impl == "ok 0" else "returned %r, expected %r" % (impl, model)))
     if e.startswith("bk") and impl.startswith("ok ") and model.startswith("ok ") and impl != model:
         it, mt = impl.split(), model.split()
         n = case_line.split()[1].split(",")[0]
